@@ -529,7 +529,8 @@ func FunctionMap() map[string]physical.FunctionDetails {
 								}
 
 								var sb strings.Builder
-								sb.WriteRune('^') // match start
+								sb.WriteString("(?s)") // let . match newlines too: _ and % stand for any character
+								sb.WriteRune('^')      // match start
 
 								escaping := false // was the character previously seen an escaping \
 
